@@ -15,18 +15,21 @@ A  registry results are those of the sequential reference: `spawn` gives the nex
 B  per process, the regular messages its handler saw are a prefix of the messages accepted for it, in the order they were
    accepted (so: at most once, in order, nothing invented); a process that never failed saw all of them; after the
    message the handler failed on nothing more is handled;
-C  a process `a` that never failed sees `Exit{from: p}` exactly once if `a` is in `p`'s link set when `p` collects it
-   (just before `proc:between_links_and_monitors`) and `a` is in the registry then, and never otherwise; the same for
-   `MonitorExit{monitored: p, reference: r}` with `p`'s monitor set at `proc:before_registry_remove`; nobody sees either twice.
-   With `full = true` the sets as they are when `p`'s task ends count as well (a link or monitor that was accepted before the
-   process was gone must be honoured): the literal reading of the property, which the code does not meet (known finding).
--/
+C  a process `a` that never failed sees `Exit{from: p, reason: error}` exactly once if `a` is in `p`'s link set when `p`
+   collects it (just before `proc:between_links_and_monitors`) and `a` is in the registry then; it sees
+   `Exit{from: p, reason: noproc}` exactly once if it is not in that set and a `link` naming `a` and `p` (either way round) is
+   made after that moment while `p` is still in the registry and `a` is in the registry (as Erlang answers a link to a
+   process that no longer runs); it never sees two exit notices about `p`, and none otherwise. The same for
+   `MonitorExit{monitored: p, reference: r}` with `p`'s monitor set at `proc:before_registry_remove` (reason `error`) and for
+   every `monitor` of `p` made after that moment (reason `noproc`, the reference that call returned). -/
 namespace Edp.Spec.Procs
 
 inductive M
   | reg (id : Nat)
   | exit (p : Nat)
   | mon (p r : Nat)
+  | exitN (p : Nat)      -- reason `noproc`
+  | monN (p r : Nat)
 deriving DecidableEq, Repr
 
 inductive E
@@ -44,6 +47,11 @@ def parseM (s : String) : Option M :=
   else if s.startsWith "m" then
     match (s.drop 1).toString.splitOn "." with
     | [p, r] => some (.mon (num p) (num r))
+    | _ => none
+  else if s.startsWith "E" then some (.exitN (num (s.drop 1).toString))
+  else if s.startsWith "M" then
+    match (s.drop 1).toString.splitOn "." with
+    | [p, r] => some (.monN (num p) (num r))
     | _ => none
   else none
 
@@ -98,6 +106,8 @@ def fails (es : Hist) (p : Nat) : M → Bool
   | .reg id => failFlag es id
   | .exit _ => !trapOf es p
   | .mon _ _ => false
+  | .exitN _ => !trapOf es p
+  | .monN _ _ => false
 
 def handledSeq (es : Hist) (p : Nat) : List (Nat × M) :=
   es.filterMap fun e => match e.2 with | .h q m => if q == p then some (e.1, m) else none | _ => none
@@ -216,45 +226,84 @@ def monSet (es : Hist) (p bound : Nat) : List (Nat × Nat) :=
 
 def countM (es : Hist) (a : Nat) (m : M) : Nat := ((handledSeq es a).filter (·.2 == m)).length
 
-def checkC (es : Hist) (full : Bool) (ps : List Nat) (p : Nat) : Option String :=
+/-- the processes that get linked to `p` by a call made in `[lo, hi)` although they were not in `known`: (process, entry
+index of the first such call) -/
+def lateLinks (es : Hist) (p lo hi : Nat) (known : List Nat) : List (Nat × Nat) :=
+  es.foldl (fun acc e =>
+    if lo < e.1 && e.1 < hi then
+      match e.2 with
+      | .call _ ["lk", a, b] _ =>
+        let a := num a; let b := num b
+        let add (acc : List (Nat × Nat)) (x : Nat) := if known.contains x || acc.any (·.1 == x) then acc else acc ++ [(x, e.1)]
+        let acc := if a == p then add acc b else acc
+        if b == p then add acc a else acc
+      | _ => acc
+    else acc) []
+
+/-- the monitors of `p` requested by a call made in `[lo, hi)`: (watcher, reference, entry index) -/
+def lateMons (es : Hist) (p lo hi : Nat) : List (Nat × Nat × Nat) :=
+  es.filterMap fun e =>
+    if lo < e.1 && e.1 < hi then
+      match e.2 with
+      | .call _ ["mo", a, b] r =>
+        if num b == p && r.startsWith "ref=" then some (num a, num (r.drop 4).toString, e.1) else none
+      | _ => none
+    else none
+
+def checkC (es : Hist) (ps : List Nat) (p : Nat) : Option String :=
   match failedAt es p with
   | none =>
     -- a process that did not terminate: nobody may see a notice about it
     ps.findSome? fun a =>
-      if (handledSeq es a).any (fun e => match e.2 with | .exit q => q == p | .mon q _ => q == p | _ => false)
+      if (handledSeq es a).any (fun e => match e.2 with
+          | .exit q => q == p | .mon q _ => q == p | .exitN q => q == p | .monN q _ => q == p | _ => false)
       then some s!"FAIL C process {a} saw a notice about {p}, which did not terminate" else none
   | some _ =>
     match xAt es p 2, xAt es p 3, droppedAt es p with
     | some x2, some x3, some dp =>
       let ls := linkSet es p x2
-      let lsFull := if full then linkSet es p dp else []
+      let late := lateLinks es p x2 dp ls
       let ms := monSet es p x3
-      let msFull := if full then monSet es p dp else []
+      let lateM := lateMons es p x3 dp
       ps.findSome? fun a =>
         let cE := countM es a (.exit p)
+        let cN := countM es a (.exitN p)
         let alive := (failedAt es a).isNone
         let dueE := ls.contains a && liveAt es a x2
-        let dueEFull := lsFull.contains a && liveAt es a dp
+        let dueN := late.any fun e => e.1 == a && liveAt es a e.2
         let r1 :=
-          if cE > 1 then some s!"FAIL C process {a} saw Exit from {p} {cE} times"
+          if cE + cN > 1 then some s!"FAIL C process {a} saw {cE + cN} exit notices about {p}"
           else if cE == 1 && !dueE then some s!"FAIL C process {a} saw Exit from {p} without being in its link set"
-          else if alive && (dueE || dueEFull) && cE == 0 then some s!"FAIL C process {a} is linked to {p} and never saw its Exit"
+          else if cN == 1 && !dueN then some s!"FAIL C process {a} saw a noproc Exit from {p} without a link that came late"
+          else if alive && dueE && cE == 0 then some s!"FAIL C process {a} is linked to {p} and never saw its Exit"
+          else if alive && dueN && cN == 0 then
+            some s!"FAIL C process {a} was linked to {p} while {p} was terminating (Ok) and never saw an exit notice"
           else none
         match r1 with
         | some e => some e
         | none =>
           let seen := (handledSeq es a).filterMap fun e => match e.2 with | .mon q r => if q == p then some r else none | _ => none
-          match seen.find? (fun r => (seen.filter (· == r)).length > 1 || !(ms.contains (a, r) && liveAt es a x3)) with
-          | some r => some s!"FAIL C process {a} saw MonitorExit of {p} with reference {r} twice or without monitoring it"
+          let seenN := (handledSeq es a).filterMap fun e => match e.2 with | .monN q r => if q == p then some r else none | _ => none
+          let all := seen ++ seenN
+          match all.find? (fun r => (all.filter (· == r)).length > 1) with
+          | some r => some s!"FAIL C process {a} saw two MonitorExit notices of {p} with reference {r}"
+          | none =>
+          match seen.find? (fun r => !(ms.contains (a, r) && liveAt es a x3)) with
+          | some r => some s!"FAIL C process {a} saw MonitorExit of {p} with reference {r} without monitoring it"
+          | none =>
+          match seenN.find? (fun r => !(lateM.any fun e => e.1 == a && e.2.1 == r && liveAt es a e.2.2)) with
+          | some r => some s!"FAIL C process {a} saw a noproc MonitorExit of {p} with reference {r} without a monitor that came late"
           | none =>
             if !alive then none else
-            match (ms.filter (fun e => e.1 == a && liveAt es a x3) ++ msFull.filter (fun e => e.1 == a && liveAt es a dp)).find?
-                (fun e => !seen.contains e.2) with
+            match (ms.filter (fun e => e.1 == a && liveAt es a x3)).find? (fun e => !seen.contains e.2) with
             | some e => some s!"FAIL C process {a} monitors {p} with reference {e.2} and never saw its MonitorExit"
-            | none => none
+            | none =>
+              match (lateM.filter (fun e => e.1 == a && liveAt es a e.2.2)).find? (fun e => !seenN.contains e.2.1) with
+              | some e => some s!"FAIL C process {a} monitored {p} while {p} was terminating (reference {e.2.1}) and never saw a notice"
+              | none => none
     | _, _, _ => some s!"FAIL C process {p} failed but did not pass all of its termination points"
 
-def check (full : Bool) (toks : List String) : String :=
+def check (toks : List String) : String :=
   match toks.mapM parseE with
   | none => "bad-op token"
   | some l =>
@@ -267,7 +316,7 @@ def check (full : Bool) (toks : List String) : String :=
       match ps.findSome? (checkB es s.accepted) with
       | some e => e
       | none =>
-        match ps.findSome? (checkC es full ps) with
+        match ps.findSome? (checkC es ps) with
         | some e => e
         | none => "ok"
 
